@@ -1425,6 +1425,9 @@ class CircuitTemplate(AbstractBaseTemplate):
         # extract target nodes from network
         *node_id, op, var = target.split('/')
         target_nodes = self.get_nodes(node_id, var_identifier=(op, var))
+        if not target_nodes:
+            warn(PyRatesWarning(f'Extrinsic input `{target}`: variable {var} has not been found on operator {op} of any node '
+                                f'matching `{"/".join(node_id)}`. The input is not connected to anything.'))
 
         # create input node
         node_key, op_key, var_key, in_node = create_input_node(var, inp, adaptive, sim_time, vectorized_net)
